@@ -65,7 +65,7 @@ class ColangParser:
         for i in range(len(lines)):
             line = lines[i]
             # An end-of-line comment after closing triple quotes is not part of the doc string.
-            code = re.sub(r'"""\s*#[^"]*$', '"""', line.strip())
+            code = re.sub(r'"""\s*#(?:(?!""").)*$', '"""', line.strip())
             if (
                 not in_docstring
                 and code.startswith('"""')
